@@ -185,14 +185,28 @@ class Alien(HasTraits):
     """has none of the observed traits: hooking it up fails"""
 
 
+class VLeaf(Leaf):
+    """a value object: every VLeaf equals every other one (observers are a matter of identity, not of equality)"""
+
+    def __eq__(self, other):
+        return isinstance(other, VLeaf)
+
+    def __ne__(self, other):
+        return not isinstance(other, VLeaf)
+
+    def __hash__(self):
+        return 7
+
+
 class Root(HasTraits):
     v = Int(0)
     a = Instance(HasTraits)
     lst = List(Instance(Leaf))
     s = Str("x")
+    d = Dict(Str, Instance(Leaf))
 
 
-EXPRS = ["v", "a.b", "a:b", "lst.items.b", "a.[b,c]"]
+EXPRS = ["v", "a.b", "a:b", "lst.items.b", "a.[b,c]", "d.items.b"]
 from traits.observation.api import trait as _t
 # registrations that cannot be satisfied: unknown traits at different walk positions, a non-container where list items
 # are required (the text form "items" is optional by design, so the expression API is used for that one)
@@ -211,6 +225,8 @@ def population(root):
         objs.append(("a", root.a))
     for i, x in enumerate(root.lst):
         objs.append(("lst%d" % i, x))
+    for k_, x in root.d.items():
+        objs.append(("d[%s]" % k_, x))
     kinds = (TraitEventNotifier, ObserverChangeNotifier)
 
     def count(lst):
@@ -220,6 +236,7 @@ def population(root):
         for name, ct in o._instance_traits().items():
             out["%s:%s" % (tag, name)] = count(ct._notifiers(False))
     out["root.lst:list"] = count(root.lst.notifiers)
+    out["root.d:dict"] = count(root.d.notifiers)
     return {k_: v for k_, v in out.items() if v}
 
 
@@ -241,7 +258,7 @@ def history_harness(k):
             _eh.pop_exception_handler()
 
     def body(ex, errors):
-        root = Root(a=Leaf(), lst=[Leaf(), Leaf()])
+        root = Root(a=Leaf(), lst=[Leaf(), Leaf()], d={"k": VLeaf()})
         calls = {0: 0, 1: 0}
         hs = [lambda e: calls.__setitem__(0, calls[0] + 1), lambda e: calls.__setitem__(1, calls[1] + 1)]
         # touch everything once so that lazily created instance traits / lists do not count as population changes
@@ -249,7 +266,7 @@ def history_harness(k):
         reg = {}
         trace = []
         for step in range(k):
-            op = ex.choice("op%d" % step, 8)
+            op = ex.choice("op%d" % step, 9)
             hi = ex.choice("h%d" % step, 2) if op in (0, 1) else 0
             ei = ex.choice("e%d" % step, len(EXPRS)) if op in (0, 1) else 0
             key = (hi, ei)
@@ -289,6 +306,19 @@ def history_harness(k):
                 trace.append("dup" if op == 5 else "pop")
                 if not ex.check(raised is None, "mutating an observed list of healthy items does not raise"):
                     return {"trace": trace}
+            elif op == 8:
+                # a dict value replaced, under its key, by an EQUAL but distinct object: the observers move all the same
+                old = root.d["k"]
+                root.d["k"] = VLeaf()
+                trace.append("twin")
+                calls[0] = calls[1] = 0
+                old.b += 1
+                ok = ex.check(calls[0] == 0 and calls[1] == 0, "a dict value replaced by an equal object is detached")
+                ok = ex.check(not any(isinstance(x, (TraitEventNotifier, ObserverChangeNotifier))
+                                      for ct in old._instance_traits().values() for x in (ct._notifiers(False) or [])),
+                              "a dict value replaced by an equal object keeps no notifier") and ok
+                if not ok:
+                    return {"trace": trace}
             elif op == 7:
                 # a graph mutation whose hook-up fails: the replaced object is detached all the same
                 old = root.a
@@ -327,11 +357,14 @@ def history_harness(k):
                 if not ex.check(population(root) == pop0, "a failing registration leaves no notifier anywhere in the graph"):
                     return {"trace": trace}       # the residue would only repeat itself in every later observation
             # probe: change every observed leaf once; each registered (handler, expression) with count >= 1 is called once per change
-            for probe in ("v", "a.b", "lst.b"):
+            for probe in ("v", "a.b", "lst.b", "d.b"):
                 calls[0] = calls[1] = 0
                 if probe == "v":
                     root.v += 1
                     names = {0}
+                elif probe == "d.b":
+                    root.d["k"].b += 1
+                    names = {5}
                 elif probe == "a.b":
                     root.a.b += 1
                     names = {1, 2, 4}
@@ -357,6 +390,7 @@ def history_harness(k):
         root.v += 1
         root.a.b += 1
         root.lst[0].b += 1
+        root.d["k"].b += 1
         ex.check(calls[0] == 0 and calls[1] == 0, "no handler call after everything was unregistered")
         return {"trace": trace}
     return harness
@@ -371,7 +405,20 @@ def weak_harness(ex):
         expr = EXPRS[ex.choice("expr", len(EXPRS))]
         root.observe(owner.method, expr)
         wr_owner, wr_leaf, wr_root = weakref.ref(owner), weakref.ref(root.a), None
-        which = ex.choice("collect", 3)
+        which = ex.choice("collect", 4)
+        if which == 3:
+            # a change whose notification RAISES (hooking up the successor fails) must not pin the objects either
+            leaf = root.a
+            try:
+                root.a = Alien()
+            except Exception:
+                pass
+            leaf.b += 1
+            wr_root = weakref.ref(root)
+            del root, leaf
+            gc.collect()
+            ex.check(wr_root() is None and wr_leaf() is None, "objects that saw a failing change notification are not kept alive")
+            return {"which": which}
         if which == 0:
             del owner
             gc.collect()
@@ -397,6 +444,67 @@ def weak_harness(ex):
             leaf.b += 1
         ex.check(errors == [], "after collection no change raises")
         return {"which": which}
+    finally:
+        _eh.pop_exception_handler()
+
+
+def wildcard_harness(ex):
+    """a handler registered (n times) for a name that a wildcard trait will govern, before the attribute exists: the first
+    assignment is a change like any other (one call), and n removals detach it everywhere - also from traits that came into
+    existence while the handler was registered (a name resolved through the wildcard, a container trait added with add_trait)"""
+    from traits.observation.api import trait as trait_
+    errors = []
+    _eh.push_exception_handler(handler=lambda e: errors.append(e), reraise_exceptions=False)
+    try:
+        class W(HasTraits):
+            temp_ = Int()
+            other = Int()
+
+        first = W()              # another instance has used the class before (or not)
+        if ex.flag("name_used_before_on_another_instance"):
+            first.temp_x = 1
+        w = W()
+        calls = []
+        h = lambda e: calls.append((e.name, e.new))
+        expr = [trait_("temp_x", optional=True), "*", trait_("temp_x", optional=True) | trait_("other")][ex.choice("expr", 3)]
+        n = 1 + ex.choice("n", 2)
+        for _ in range(n):
+            w.observe(h, expr)
+        added = ex.flag("container_trait_added_meanwhile")
+        if added:
+            w.add_trait("lst", List(Int))
+            w.lst = [1]
+        del calls[:]
+        w.temp_x = 5
+        ex.check([c for c in calls if c[0] == "temp_x"] == [("temp_x", 5)], "the first assignment to a wildcard-governed name registered beforehand calls the handler once")
+        del calls[:]
+        w.temp_x = 6
+        ex.check([c for c in calls if c[0] == "temp_x"] == [("temp_x", 6)], "the handler is called once per change, however often it was registered")
+        for _ in range(n):
+            exc = None
+            try:
+                w.observe(h, expr, remove=True)
+            except NotifierNotFound:
+                exc = "NotifierNotFound"
+            if not ex.check(exc is None, "removing a registered handler succeeds"):
+                break
+        del calls[:]
+        w.temp_x = 7
+        w.other = 3
+        ex.check(calls == [], "no handler call after everything was unregistered")
+        if added:
+            del calls[:]
+            w.lst.append(2)
+            w.lst = [4]
+            ex.check(calls == [], "no handler call for a trait added meanwhile after everything was unregistered")
+        if exc is None:
+            try:
+                w.observe(h, expr, remove=True)
+            except NotifierNotFound:
+                exc = "NotifierNotFound"
+            ex.check(exc == "NotifierNotFound", "one removal too many raises NotifierNotFound")
+        ex.check(errors == [], "no handler or maintainer raised")
+        return {"n": n}
     finally:
         _eh.pop_exception_handler()
 
@@ -504,6 +612,8 @@ def obligations(tier, build):
                           leverage="choice feasibility only", max_paths=200000, path_wall_s=60))
     obs.append(Obligation("decorated", decorated_harness, bounds={"hierarchies": ["plain", "subclass", "diamond", "diamond with override"]},
                           leverage="choice feasibility only"))
-    obs.append(Obligation("weak", weak_harness, bounds={"expressions": EXPRS, "collected": ["handler owner", "detached leaf", "root"]},
+    obs.append(Obligation("wildcard-name", wildcard_harness, bounds={"expressions": ["trait(name, optional)", "*", "trait(name, optional) | trait(other)"],
+                                                                     "registrations": "1-2"}, leverage="choice feasibility only"))
+    obs.append(Obligation("weak", weak_harness, bounds={"expressions": EXPRS, "collected": ["handler owner", "detached leaf", "root", "root and leaf after a failing notification"]},
                           leverage="choice feasibility only"))
     return obs
